@@ -53,6 +53,9 @@ type Session struct {
 	// Poll: the transport's Read returns an empty slice (no error) when nothing is pending, as the
 	// transport interface allows, instead of blocking.
 	Poll bool `json:"poll,omitempty"`
+	// LateEcho > 0: the second half of the echo of command LateEcho-1 reaches the transport 3 s late
+	// (operation timeout 8 s for the session): late, but well inside the operation's time.
+	LateEcho int `json:"late_echo,omitempty"`
 	// Huge: the first command's output holds one line of 65 536..70 000 bytes.
 	Huge bool       `json:"huge,omitempty"`
 	Seg  devsim.Seg `json:"seg"`
@@ -305,12 +308,23 @@ func GenSession(r *rand.Rand, tier string) (Session, int) {
 		s.ReadSize = 8192
 		s.Seg.Mode = "mix"
 		s.Seg.Size = 100
+		if r.Intn(2) == 0 {
+			// reads that come back filled to the brim, the last one of a burst included
+			s.ReadSize = []int{1024, 1500, 2048}[r.Intn(3)]
+			s.Seg.Mode = "tailfill"
+		}
 	}
 	if s.Huge {
 		s.ReadSize = 8192
-		s.Seg = devsim.Seg{Mode: []string{"whole", "fixed"}[r.Intn(2)], Size: 4096, Seed: s.Seg.Seed}
+		s.Seg = devsim.Seg{Mode: []string{"whole", "fixed", "tailfill"}[r.Intn(3)], Size: 4096, Seed: s.Seg.Seed}
+		if s.Seg.Mode == "tailfill" {
+			s.ReadSize = []int{1024, 4096, 8192}[r.Intn(3)]
+		}
 		s.ReadDelay = []int{0, 50}[r.Intn(2)]
 		s.Poll = false
+	}
+	if (s.API == "each" || s.API == "channel") && !s.Poll && !s.Huge && !big && r.Intn(14) == 0 {
+		s.LateEcho = 1 + r.Intn(len(s.Cmds))
 	}
 	// wrap overhead must keep the wrapped echo inside the input-dependent window
 	if s.WrapEvery > 0 {
@@ -403,6 +417,9 @@ func RunSession(s Session, h *Hooks) mon.Result {
 		options.WithReadDelay(time.Duration(s.ReadDelay) * time.Microsecond),
 		options.WithTimeoutOps(30 * time.Second),
 	}
+	if s.LateEcho > 0 {
+		opts = append(opts, options.WithTimeoutOps(8*time.Second))
+	}
 	if h != nil {
 		opts = append(opts, h.ExtraOpts...)
 	}
@@ -488,6 +505,31 @@ func RunSession(s Session, h *Hooks) mon.Result {
 	for i, c := range s.Cmds {
 		cmds[i] = c.Text
 	}
+	// lateEcho arms the delayed echo for command i and returns the function that disarms it
+	lateEcho := func(i int, c string) func() {
+		if s.LateEcho != i+1 || len(c) < 2 {
+			return func() {}
+		}
+		dl := time.Now().Add(3 * time.Second)
+		var g0 int
+		for {
+			conn.Do(func() { g0 = conn.Generated() })
+			if conn.Delivered() >= g0-1 || time.Now().After(dl) {
+				break
+			}
+			time.Sleep(300 * time.Microsecond)
+		}
+		conn.SetFault(devsim.FaultStall, g0+1+len(c)/2)
+		done := make(chan struct{})
+		go func() {
+			select {
+			case <-time.After(3 * time.Second):
+			case <-done:
+			}
+			conn.Release()
+		}()
+		return func() { close(done); conn.ClearFault() }
+	}
 	switch s.API {
 	case "multi", "file":
 		var inputs []string
@@ -559,7 +601,9 @@ func RunSession(s Session, h *Hooks) mon.Result {
 		}
 	case "channel":
 		for i, c := range cmds {
+			disarm := lateEcho(i, c)
 			b, e := gd.Channel.SendInput(c, opoFor(i)...)
+			disarm()
 			if e != nil {
 				return bad("c01/error:"+errClass(e), "SendInput(%q) returned %v", c, e)
 			}
@@ -570,6 +614,7 @@ func RunSession(s Session, h *Hooks) mon.Result {
 		for i, c := range cmds {
 			var e error
 			var res string
+			disarm := lateEcho(i, c)
 			if nd != nil {
 				r, e2 := nd.SendCommand(c, opoFor(i)...)
 				e = e2
@@ -585,6 +630,7 @@ func RunSession(s Session, h *Hooks) mon.Result {
 					keep(r.RawResult)
 				}
 			}
+			disarm()
 			if e != nil {
 				return bad("c01/error:"+errClass(e), "SendCommand(%q) returned %v", c, e)
 			}
@@ -715,6 +761,12 @@ func RunSession(s Session, h *Hooks) mon.Result {
 	tags = append(tags, "drv="+s.Driver, "api="+s.API, fmt.Sprintf("exact=%v", s.Exact), fmt.Sprintf("strip=%v", s.Strip), fmt.Sprintf("per_op_options=%v", s.PerOp),
 		fmt.Sprintf("readsize=%d", s.ReadSize), "seg="+s.Seg.Mode, fmt.Sprintf("readdelay=%dus", s.ReadDelay),
 		fmt.Sprintf("returnchar=%q", s.ReturnChar), fmt.Sprintf("wrap=%q", s.Wrap), fmt.Sprintf("psd_is_minimal=%v", s.PSD < 1000))
+	if s.LateEcho > 0 {
+		obs["sessions_with_an_echo_delivered_3s_late"]++
+	}
+	if s.Seg.Mode == "tailfill" {
+		obs["sessions_whose_bursts_end_in_a_read_filled_to_the_brim"]++
+	}
 	return mon.Result{Verdict: mon.Held, NonTrivial: nontrivial && len(cmds) >= 2, Obs: obs, Tags: tags,
 		Sample: map[string]interface{}{"commands": len(cmds), "first_command": clip(cmds[0]), "first_result": clip(got[0]), "transport": devsim.Summary(log),
 			"config": cfg}}
